@@ -625,6 +625,8 @@ fn c13(seed: u64, thorough: bool) -> Scenario {
         let path = g.world.files[f].path.clone();
         let gl = match g.rng.below(4) {
             0 => "vendor/**".to_string(),
+            // directory names of the scratch location itself: globs see root-relative paths only
+            1 if g.rng.chance(1, 2) => (*g.rng.pick(&["**/repo/**", "**/shm/**", "**/nested/**", "*/*.lock"])).to_string(),
             1 => "third_party/**".to_string(),
             2 if f != fi => path,
             _ => "**/*.lock".to_string(),
@@ -1075,6 +1077,8 @@ fn c15(seed: u64, thorough: bool) -> Scenario {
             // `dir/*.ext` every matching file below `dir`
             6 => format!("*.{ext}"),
             9 if comps.len() > 1 => format!("{}/*.{ext}", comps[0]),
+            // `*/*.ext`: at least one directory level
+            9 => format!("*/*.{ext}"),
             _ => format!("**/*.{ext}"),
         }
     };
